@@ -36,3 +36,25 @@ def values_within_limits(x):
             if not (lo[k] <= v <= hi[k]):
                 return False
     return True
+
+
+class TimeLimit:
+    """sympy / schemdraw occasionally take minutes on pathological inputs: bound each call (main thread only)"""
+
+    def __init__(self, seconds):
+        self.seconds = seconds
+
+    def __enter__(self):
+        import signal
+
+        def handler(signum, frame):
+            raise TimeoutError()
+
+        self.old = signal.signal(signal.SIGALRM, handler)
+        signal.alarm(self.seconds)
+
+    def __exit__(self, *a):
+        import signal
+        signal.alarm(0)
+        signal.signal(signal.SIGALRM, self.old)
+        return False
